@@ -86,7 +86,8 @@ def _solve(smt2):
         # inconclusive answer costs nothing but time
         s.set("timeout", 2500 if vac else Z3_MS)
         s.from_string(smt2)
-        r = s.check()
+        from pyvc.smt import guarded_check
+        r = guarded_check(s, 2500 if vac else Z3_MS)
         ms = (time.time() - t0) * 1000
         if r == z3.unsat:
             return "unsat", None, "z3-" + z3.get_version_string(), ms
